@@ -3,6 +3,7 @@ package props
 // C08 - key search and sub-key filters are complete, exact and mutually consistent.
 
 import (
+	"fmt"
 	"reflect"
 	"sort"
 	"strings"
@@ -290,6 +291,41 @@ func checkC08(c CaseC08, info *Info) *Failure {
 		if !subMultiset(must, gotF) || !subMultiset(gotF, may) {
 			return failf("filter-mismatch", "map %s\n%q sub-keys %q\n got  %v\n must %v\n may  %v", js, what, sp, gotF, must, may)
 		}
+	}
+	// (5) a sub-key argument is parsed under the separator in force at the call, whatever an earlier call saw:
+	// the same argument strings under two separators, interleaved, with the case's own arguments as the first user
+	{
+		mm := mxj.Map{"l": []interface{}{
+			map[string]interface{}{"a": "x:y", "n": "1"}, map[string]interface{}{"a|x": "y", "n": "2"}, map[string]interface{}{"a": "z", "n": "3"},
+			map[string]interface{}{"b:p": "q", "n": "4"}, map[string]interface{}{"b": "p|q", "n": "5"}}}
+		ns := func(spec string) string {
+			vs, err := mm.ValuesForKey("l", spec)
+			if err != nil {
+				return "error"
+			}
+			var out []string
+			for _, v := range vs {
+				out = append(out, fmt.Sprint(v.(map[string]interface{})["n"]))
+			}
+			sort.Strings(out)
+			return strings.Join(out, ",")
+		}
+		order := []string{"|", ":", "|", ":"}
+		if c.Sep == ":" || c.Sep == "" {
+			order = []string{":", "|", ":", "|"}
+		}
+		want := map[string][2]string{"|": {"1", "4"}, ":": {"2", "5"}}
+		for _, sp := range order {
+			mxj.SetFieldSeparator(sp)
+			g1, g2 := ns("a|x:y"), ns("b:p|q")
+			if g1 != want[sp][0] || g2 != want[sp][1] {
+				return failf("separator-leak", "under separator %q (sequence %q): ValuesForKey(l, \"a|x:y\") selects members %s want %s; (l, \"b:p|q\") selects %s want %s", sp, order, g1, want[sp][0], g2, want[sp][1])
+			}
+			if vs, err := mm.ValuesForPath("l", "a|x:y"); err != nil || len(vs) != 1 || fmt.Sprint(vs[0].(map[string]interface{})["n"]) != want[sp][0] {
+				return failf("separator-leak", "under separator %q (sequence %q): ValuesForPath(l, \"a|x:y\") = %v,%v want member %s", sp, order, vs, err, want[sp][0])
+			}
+		}
+		mxj.SetFieldSeparator(":")
 	}
 	if !reflect.DeepEqual(subject, c.Map) {
 		return failf("receiver-modified", "map %s became %s", js, canon(subject))
